@@ -883,6 +883,10 @@ func main() {
 			checkMC(r, c, &offSolid{lat.NewSolid3(o, c.Delta, n, c.Bits), c.Kind}, c.Delta, c.Iters, c.Iters == 2, true, 0)
 		case "MarchingSquares":
 			checkMS(r, c, &offSolid2{lat.NewSolid2(model2d.XY(c.Origin[0], c.Origin[1]), c.Delta, [2]int{c.N[0], c.N[1]}, c.Bits), c.Kind}, c.Delta, c.Iters)
+		case "SolidSurfaceEstimator", "SolidSurfaceEstimator.Normal":
+			estimatorStage(r, true)
+		case "DualContourShortcuts", "DualContourSDF":
+			dcShortcutStage(r, true)
 		default:
 			csgStage(r, true)
 			dcStage(r, true)
@@ -912,6 +916,8 @@ func main() {
 	})
 	r.Isolate("csg", func() { csgStage(r, full) })
 	r.Isolate("dc", func() { dcStage(r, full) })
+	r.Isolate("estimator", func() { estimatorStage(r, full) })
+	r.Isolate("dc-shortcuts", func() { dcShortcutStage(r, full) })
 	r.Finish()
 }
 
